@@ -158,6 +158,17 @@ def r3_identity(cx):
           "the reader returned for a file found at the recorded location is selected by the expected uuid (%s): a different pack at that location is not accepted" % "; ".join(detail))
 
 
+def r3b_enclosing_file_by_uuid(cx):
+    """identity is the uuid also for packs embedded in the file at hand: the first locator of the chain
+    (the opened container) answers by uuid whatever location the manifest records"""
+    import c10
+    before = len(cx.obs)
+    c10.r1_chain(cx)
+    for o in cx.obs[before:]:
+        o.rule = "R3"
+        o.key = "R3/chain/" + o.key.split("/", 1)[1]
+
+
 def r4_check_skips_missing(cx):
     F = cx.F
     f = F.one(impl_self="reader::jubako::Container", item="check", closure=False, trait="")
@@ -204,6 +215,7 @@ RULES = [
     ("R1", r1_three_way, 8),
     ("R2", r2_absent_is_none, 2),
     ("R3", r3_identity, 1),
+    ("R3", r3b_enclosing_file_by_uuid, 6),
     ("R4", r4_check_skips_missing, 1),
     ("R5", r5_lazy_content_packs, 1),
 ]
